@@ -66,13 +66,13 @@ Theorem C06_skeleton_reports_belong_to_their_state : forall (B E T : Type) (repr
   (fast : blocks B -> nat * blocks B -> nat -> E) (explicit : blocks B -> E) (Orc : oracle B) (C : config),
   (forall cur k snap, (forall j, j <> k -> snap j = cur j) -> fast cur (k, snap) k = errT (repr cur)) ->
   (forall st, explicit st = errT (repr st)) ->
-  (forall st, repr (normalized B Orc st) = repr st) ->
+  (forall st, repr (normalized Orc st) = repr st) ->
   well_formed C ->
   forall (n : nat) (init : blocks B),
-  let l := run B E fast explicit Orc C n init in
-  Forall (good_event B E T repr errT) (trace B E l) /\
+  let l := run fast explicit Orc C n init in
+  Forall (good_event B E T repr errT) (trace l) /\
   last_report_ok B E T repr errT l /\
-  last (trace B E l) (EBreak B E) = EReturn B E (cur B E l).
+  last (trace l) EBreak = EReturn (cur l).
 Proof. exact @skeleton_sound. Qed.
 Print Assumptions C06_skeleton_reports_belong_to_their_state.
 
@@ -82,14 +82,14 @@ Print Assumptions C06_skeleton_reports_belong_to_their_state.
 Theorem C06_skeleton_without_linesearch_report_refuted :
   exists (Orc : oracle nat) (C : config) (n : nat) (init : blocks nat),
     report_linesearch C = false /\
-    ~ last_report_ok nat nat nat toy_repr (fun x => x) (run nat nat toy_fast toy_explicit Orc C n init).
+    ~ last_report_ok nat nat nat toy_repr (fun x => x) (run toy_fast toy_explicit Orc C n init).
 Proof. exact skeleton_linesearch_refuted. Qed.
 Print Assumptions C06_skeleton_without_linesearch_report_refuted.
 
 Theorem C06_skeleton_normalize_before_error_refuted :
   exists (Orc : oracle nat) (C : config) (n : nat) (init : blocks nat),
     norm_before_error C = true /\
-    ~ Forall (good_event nat nat nat toy_repr (fun x => x)) (trace nat nat (run nat nat toy_fast toy_explicit Orc C n init)).
+    ~ Forall (good_event nat nat nat toy_repr (fun x => x)) (trace (run toy_fast toy_explicit Orc C n init)).
 Proof. exact skeleton_normalize_before_refuted. Qed.
 Print Assumptions C06_skeleton_normalize_before_error_refuted.
 
